@@ -25,16 +25,16 @@ def viewdep(R, shapeB):
 
 
 def handler_consts(parties, honest, R, shapeB, shapeM, variants=("h",), inject=0, dup=0, foreign=0,
-                   echo_first=True, kindflip=False, stop=False):
+                   echo_first=True, kindflip=False, stop=False, proto_aborts=False, echo_check=True):
     return {
         "P": set(parties), "Honest": set(honest), "R": R,
         "ShapeB": set(shapeB), "ShapeM": set(shapeM), "ViewDep": viewdep(R, shapeB),
         "Variants": set(variants), "MaxInject": inject, "MaxDup": dup, "MaxForeign": foreign,
-        "EchoFirst": echo_first, "KindFlip": kindflip, "StopAllowed": stop,
+        "EchoFirst": echo_first, "EchoCheck": echo_check, "KindFlip": kindflip, "StopAllowed": stop, "ProtoAborts": proto_aborts,
     }
 
 
-TRACE_INVARIANTS = ["TypeOK", "BlameSound", "EchoNamesNobody", "NoticeBlame", "NoSplit", "NoBadAccepted"]
+TRACE_INVARIANTS = ["TypeOK", "BlameSound", "EchoNamesNobody", "NoticeBlame", "NoSplit", "NoBadAccepted", "WrongNeverAccepted"]
 
 
 def validate_trace(wd, trace_file, parties, honest, R, shapeB, shapeM, extra_invariants=(), timeout=900):
@@ -54,3 +54,133 @@ def trace_line(trace_file, n):
             if i == n:
                 return json.loads(line)
     return None
+
+
+# ----------------------------------------------------------------------------------------------
+# adversarial runs (hadv) + trace validation
+
+_disc = {}
+
+
+def discover(proto, n, t, seed=0):
+    """message structure of a real protocol: R, shapes and per (round, kind) the leaves of the CBOR content"""
+    key = (proto, n, t)
+    if key not in _disc:
+        p = vlib.run([os.path.join(vlib.HBIN, "hadv"), "-mode", "discover", "-proto", proto, "-n", str(n), "-t", str(t), "-seed", str(seed)], timeout=600)
+        if p.returncode != 0:
+            raise vlib.Inconclusive("hadv discover failed for %s: %s" % (proto, (p.stdout + p.stderr)[-1500:]))
+        _disc[key] = json.loads(p.stdout.strip().splitlines()[-1])
+    return _disc[key]
+
+
+ADV_VARIANTS = ("h", "e1", "e2", "mut", "junk")
+
+
+def run_adversarial(wd, scenarios, tag, seed=0, timeout=3000, shards=1):
+    """Runs hadv on the scenarios (list of dicts, each with a unique 'id'), validates every trace group with TLC.
+    Returns (outcomes by id, list of trace problems, tlc stats)."""
+    import subprocess
+    hadv = os.path.join(vlib.HBIN, "hadv")
+    procs = []
+    for sh in range(shards):
+        part = scenarios[sh::shards]
+        if not part:
+            continue
+        sf = os.path.join(wd, "%s_%d.scen.jsonl" % (tag, sh))
+        with open(sf, "w") as fh:
+            for s in part:
+                fh.write(json.dumps(s) + "\n")
+        procs.append((sh, subprocess.Popen([hadv, "-scen", sf, "-out", wd, "-tag", "%s%d" % (tag, sh), "-seed", str(seed)],
+                                           env=vlib.GOENV, stdout=subprocess.PIPE, stderr=subprocess.PIPE, text=True)))
+    outcomes, groups = {}, []
+    for sh, p in procs:
+        try:
+            out, err = p.communicate(timeout=timeout)
+        except subprocess.TimeoutExpired:
+            p.kill()
+            raise vlib.Inconclusive("hadv timed out")
+        if p.returncode != 0:
+            raise vlib.Inconclusive("hadv failed: %s" % (out + err)[-2000:])
+        summ = json.load(open(os.path.join(wd, "%s%d_summary.json" % (tag, sh))))
+        for o in summ["outcomes"]:
+            outcomes[o["id"]] = o
+        groups += summ["groups"]
+    # merge the shards' trace files per (proto, n, byz): one TLC configuration per group
+    merged = {}
+    reset = json.dumps({"ev": "Reset", "i": "", "can": False, "ign": False, "post": {"rnd": 0, "st": "", "ek": "", "culp": [], "cur": 0},
+                        "em": [], "trace": -1, "res": "none"})
+    for g in groups:
+        key = (g["proto"], g["n"], g["byz"])
+        if key not in merged:
+            mf = os.path.join(wd, "%s_%s_%d_%s.merged.ndjson" % (tag, g["proto"].replace(":", "_").replace(",", "_"), g["n"], g["byz"]))
+            merged[key] = dict(g, file=mf, traces=0, lines=0)
+            open(mf, "w").close()
+        m = merged[key]
+        with open(m["file"], "a") as out, open(g["file"]) as inp:
+            if m["lines"] > 0:
+                out.write(reset + "\n")
+                m["lines"] += 1
+            for line in inp:
+                out.write(line)
+                m["lines"] += 1
+        m["traces"] += g["traces"]
+    problems, stats = [], {"distinct": 0, "generated": 0, "traces": 0, "lines": 0}
+    by_id = {s["id"]: s for s in scenarios}
+
+    def validate(g):
+        anyscen = next(s for s in scenarios if s["proto"] == g["proto"] and s["n"] == g["n"])
+        d = discover(g["proto"], g["n"], anyscen.get("t", 1), seed)
+        consts = handler_consts(g["parties"], g["honest"], d["R"], d["shapeB"] or [], d["shapeM"] or [],
+                                variants=ADV_VARIANTS, proto_aborts=True)
+        consts["TraceFile"] = os.path.basename(g["file"])
+        c = vlib.cfg(consts, spec="TraceSpec", invariants=TRACE_INVARIANTS, postcondition="TraceAccepted")
+        return g, vlib.tlc(wd, "HandlerTrace", c, files=[g["file"]], workers=1, timeout=900)
+
+    # make sure discover() results are cached before going parallel
+    for g in merged.values():
+        anyscen = next(s for s in scenarios if s["proto"] == g["proto"] and s["n"] == g["n"])
+        discover(g["proto"], g["n"], anyscen.get("t", 1), seed)
+    from concurrent.futures import ThreadPoolExecutor
+    import re
+    with ThreadPoolExecutor(max_workers=8) as ex:
+        results = list(ex.map(validate, merged.values()))
+    for g, r in results:
+        stats["distinct"] += r["distinct"]; stats["generated"] += r["generated"]
+        stats["lines"] += g["lines"]
+        if r["ok"]:
+            stats["traces"] += g["traces"]
+            continue
+        if r.get("timeout"):
+            raise vlib.Inconclusive("trace validation timed out for %s" % g["file"])
+        line = r["rejected_at"]
+        if not line:
+            ls = re.findall(r"/\\ l = (\d+)", r["out"])
+            line = int(ls[-1]) - 1 if ls else None     # the state after consuming line l-1 violates the invariant
+        ev = trace_line(g["file"], line) if line else None
+        if not r["violated"] and not r["rejected_at"]:
+            raise vlib.Inconclusive("TLC failed on %s: %s" % (g["file"], r["out"][-1500:]))
+        problems.append({"group": g, "violated": r["violated"], "line": line, "event": ev,
+                         "scenario": by_id.get(ev["trace"]) if ev else None, "tlc": r["dir"]})
+    return outcomes, problems, stats
+
+
+def fault_catalogue(wd, proto, n, t, seed=0):
+    """TLC enumerates the deviation catalogue of a real protocol from its discovered message structure."""
+    d = discover(proto, n, t, seed)
+    names = ["a", "b", "c", "d", "e", "f"][:n]
+    slots = []
+    for s in d["slots"]:
+        kinds = "<<" + ", ".join('"%s"' % l["Kind"] for l in s["leaves"]) + ">>"
+        slots.append('[round |-> %d, b |-> %s, kinds |-> %s]' % (s["round"], "TRUE" if s["b"] else "FALSE", kinds))
+    data = "---- MODULE FaultCatData ----\nProto == \"%s\"\nParties == %s\nR == %d\nShapeB == %s\nShapeM == %s\nSlots == <<%s>>\n====\n" % (
+        proto, vlib.tla(names), d["R"], vlib.tla(set(d["shapeB"] or [])), vlib.tla(set(d["shapeM"] or [])), ",\n  ".join(slots))
+    dd = os.path.join(wd, "cat_%s_%d" % (proto.replace(":", "_").replace(",", "_"), n))
+    os.makedirs(dd, exist_ok=True)
+    df = os.path.join(dd, "FaultCatData.tla")
+    with open(df, "w") as fh:
+        fh.write(data)
+    r = vlib.tlc(wd, "FaultCat", "INIT Init\nNEXT Next\nCHECK_DEADLOCK FALSE\n", files=[df], workers=1, timeout=900)
+    vlib.tlc_must_pass(r, "FaultCat.tla for %s" % proto)
+    cat = {"fault": vlib.printed(r["out"], "FLT"), "hdr": vlib.printed(r["out"], "HDR"), "equiv": vlib.printed(r["out"], "EQV"),
+           "R": d["R"], "shapeB": d["shapeB"] or [], "shapeM": d["shapeM"] or [], "tlc": r, "slots": d["slots"]}
+    return cat
